@@ -46,8 +46,18 @@ func repoDir() string {
 }
 
 func main() {
-	debug.SetGCPercent(1600)
-	debug.SetMemoryLimit(24 << 30)
+	// GC tuning: the executor allocates fast and keeps little; a large GC
+	// percentage trades memory for speed, the soft limit keeps one process
+	// (with all its parallel jobs) below about a third of a 64 GB machine.
+	gcp, lim := 400, int64(20)
+	if v, err := strconv.Atoi(os.Getenv("SVER_GOGC")); err == nil && v > 0 {
+		gcp = v
+	}
+	if v, err := strconv.Atoi(os.Getenv("SVER_MEMLIMIT_GB")); err == nil && v > 0 {
+		lim = int64(v)
+	}
+	debug.SetGCPercent(gcp)
+	debug.SetMemoryLimit(lim << 30)
 	if len(os.Args) < 2 {
 		fmt.Fprintln(os.Stderr, "usage: sver job|check|replay|selftest ...")
 		os.Exit(2)
